@@ -105,7 +105,7 @@ def run(c):
     nasan = int((160 if quick else 3000) * S)                         # in-process, asan+ubsan
     ngames = int((16000 if quick else 600000) * S)                    # bound: games (rel)
     ngames_asan = int((600 if quick else 20000) * S)
-    nsample = max(4, int(npos * (0.10 if quick else 0.05)))           # iterated mode sample
+    nsample = max(4, int(npos * (0.15 if quick else 0.05)))           # iterated mode sample
     it_timeout = 120 if quick else 5400
     targets = [("rel", "h_pg"), ("asan", "h_pg"), ("rel", "texelutil")]
     if not quick:
@@ -126,19 +126,24 @@ def run(c):
     gseeds = [c.seed * 1000 + i for i in range(shards)]
     gres = core.run_many([[H, "genfens", str(s), str(per)] for s in gseeds], timeout=600)
     c.absorb("generator", gres)
-    fens, moves_of = [], {}
+    fens, moves_of, kind_of = [], {}, {}
     for r in gres:
         for l in r.stdout.splitlines():
             if l.startswith("FEN "):
-                fen, _, mv = l[4:].partition(" | ")
+                fen, _, rest = l[4:].partition(" | ")
+                mv, _, kind = rest.partition(" | ")
                 fens.append(fen)
                 moves_of[fen] = mv
+                kind_of[fen] = kind
     if len(fens) != per * shards:
         raise core.HarnessError("generator produced %d of %d positions" % (len(fens), per * shards))
     fenfile = tmp("fens.txt")
     with open(fenfile, "w") as f:
         f.write("".join(x + "\n" for x in fens))
     sample = fens[5::max(1, len(fens) // nsample)][:nsample]
+    # the rare shapes always go through the iterated mode as well: short games ending in an e.p. capture (two forced last moves, the
+    # search finds a proof game at once) and cross-checks (last-move analysis of quiet moves made while in check)
+    sample += [f for f in fens if kind_of.get(f, "") in ("ep-capture-short-game", "ep-capture-check-short-game", "cross-check", "cross-check-32-men", "ep-capture") and f not in sample]
     samplefile = tmp("sample.txt")
     with open(samplefile, "w") as f:
         f.write("".join(x + "\n" for x in sample))
